@@ -30,6 +30,10 @@ def run(ctx):
     ctx.rule('C08.d-wrappers-forward', 'supports/new/reset of ReedSolomon{En,De}coder only forward to the default rate: the wrappers answer from the same predicate and their constructors agree with it (clause shared with C09.c)')
     from . import c09
     ctx.guard('C08.analysable', ctx.shared, {'C09.c-delegation': 'C08.d-wrappers-forward'}, c09.check, ctx, ctx.facts(cfgs[0]), cfgs[0])
+    ctx.rule('C08.g-reset-reaches-every-configuration', 'reset() to any supported configuration yields a codec that works like a new one: the explicit reset rewrites every field of the work object on every path, and nothing downstream depends on how large the object has ever been (clauses shared with C05.a and C05.h)')
+    from . import resetrules, c05 as c05_
+    ctx.guard('C08.analysable', ctx.shared, {'X.full': 'C08.g-reset-reaches-every-configuration'}, resetrules.check_reset_discipline, ctx, ctx.facts(cfgs[0]), cfgs[0], 'X.drop', 'X.recv', 'X.full')
+    ctx.guard('C08.analysable', ctx.shared, {'C05.h-grow-only-lengths': 'C08.g-reset-reaches-every-configuration'}, c05_.grow_only_lengths, ctx, ctx.facts(cfgs[0]), cfgs[0])
     ctx.rule('C08.e-space-for-every-position', 'the decoder sizes its received bitmap from the configuration — max(original_base_pos + original_count, recovery_base_pos + recovery_count) — so that every position of every supported configuration, up to the edge of the envelope, can be marked')
     ctx.rule('C08.f-table-passes-cover-the-table', 'a loop that rewrites a fixed-size table in place element by element (t[i] = f(t[i])) runs over the whole table, 0..len: the last entries are read only by configurations at the edge of the envelope')
     for cfg in cfgs:
